@@ -179,6 +179,11 @@ func (b *colBackend) touch(id, kind, val string) error {
 	return nil
 }
 
+// formErr: two output forms of one search disagree.
+type formErr struct{ key, msg string }
+
+func (e formErr) Error() string { return e.msg }
+
 type staleErr struct{ msg string }
 
 func (e staleErr) Error() string { return e.msg }
@@ -343,14 +348,36 @@ func (b *srvBackend) search(pred string, sparse int, area areaSpec, clipped geoj
 		return nil, err
 	}
 	if sparse == 0 {
-		// COUNT goes through the same index walk
-		cargs := append([]string{strings.ToUpper(pred), theKey, "LIMIT", "1000000000", "COUNT"}, area.cmdArgs()...)
-		cv, err := b.c.Do(cargs...)
-		if err != nil {
-			return nil, err
-		}
-		if cv.Kind != ':' || int(cv.Int) != len(ids) {
-			return nil, fmt.Errorf("COUNT output %s differs from %d ids", cv, len(ids))
+		// every output form of the same search must describe the same result:
+		// COUNT = number of ids, and OBJECTS / POINTS / BOUNDS / HASHES list the
+		// same ids in the same order
+		forms := [][]string{{"COUNT"}, {"OBJECTS"}, {"POINTS"}, {"BOUNDS"}, {"HASHES", "7"}}
+		for _, form := range forms {
+			fargs := append([]string{strings.ToUpper(pred), theKey, "LIMIT", "1000000000"}, form...)
+			fargs = append(fargs, area.cmdArgs()...)
+			fv, err := b.c.Do(fargs...)
+			if err != nil {
+				return nil, err
+			}
+			what := strings.Join(fargs[:2], " ") + " ... " + strings.Join(form, " ") + " " + strings.Join(area.cmdArgs(), " ")
+			if form[0] == "COUNT" {
+				if fv.Kind != ':' || int(fv.Int) != len(ids) {
+					return ids, formErr{"count-differs-from-ids", fmt.Sprintf("%s answered %s, the IDS form of the same search returns %d ids", what, fv, len(ids))}
+				}
+				continue
+			}
+			if fv.Kind != '*' || len(fv.Arr) != 2 || fv.Arr[1].Kind != '*' || len(fv.Arr[1].Arr) != len(ids) {
+				n := -1
+				if fv.Kind == '*' && len(fv.Arr) == 2 {
+					n = len(fv.Arr[1].Arr)
+				}
+				return ids, formErr{"output-forms-disagree:" + strings.ToLower(form[0]), fmt.Sprintf("%s returned %d elements, the IDS form returns %d ids", what, n, len(ids))}
+			}
+			for i, e := range fv.Arr[1].Arr {
+				if e.Kind != '*' || len(e.Arr) < 2 || e.Arr[0].Str != ids[i] {
+					return ids, formErr{"output-forms-disagree:" + strings.ToLower(form[0]), fmt.Sprintf("%s: element %d is %s, the IDS form has %q there", what, i, e, ids[i])}
+				}
+			}
 		}
 	}
 	if b.nTch > 0 {
@@ -732,6 +759,9 @@ func (m *machine) query(st step) {
 	}
 
 	got, err := m.be.search(st.Pred, st.Sparse, area, clipped)
+	if fe, ok := err.(formErr); ok {
+		c.Fail(m.t, fe.key, fmt.Sprintf("%s (over %d objects, %d of them empty geometries; after %d deletes, %d overwrites)", fe.msg, len(m.live), m.nEmpty(), m.nDel, m.nMove), m.hist)
+	}
 	if se, ok := err.(staleErr); ok {
 		c.Fail(m.t, "stale-object-returned", fmt.Sprintf("%s %s sparse=%d (after %d deletes, %d overwrites, %d FSET/EXPIRE/PERSIST updates): %s",
 			strings.ToUpper(st.Pred), strings.Join(area.cmdArgs(), " "), st.Sparse, m.nDel, m.nMove, m.nTouch, se.msg), m.hist)
@@ -805,6 +835,14 @@ func (m *machine) query(st step) {
 	// evidence
 	if m.nTouch > 0 {
 		c.Label("after-fset/expire/persist")
+	}
+	if q, ok := rectLike(clipped); ok {
+		if cv := m.cover(); cv != nil && q.ContainsRect(*cv) {
+			c.Label("rectangle-covers-collection")
+			if m.nEmpty() > 0 {
+				c.Label("rectangle-covers-collection+empty-geometries")
+			}
+		}
 	}
 	if st.Sparse > 0 {
 		c.Label("sparse")
@@ -946,7 +984,7 @@ func generate(rt *rapid.T, m *machine, server bool, s sizes) {
 		return id
 	}
 	doQuery := func(t *rapid.T, pred string, sparse int) {
-		a := p.area(t, server, theKey, m.ids)
+		a := p.area(t, server, theKey, m.ids, m.cover())
 		if pred == "within" {
 			// geojson's Line.ContainsLine does not terminate for some ordinary
 			// inputs (see notes: hang-linestring-within-linestring); a predicate
@@ -1055,6 +1093,42 @@ func generate(rt *rapid.T, m *machine, server bool, s sizes) {
 	for i := 0; i < 4; i++ {
 		doQuery(rt, []string{"within", "intersects"}[i%2], 0)
 	}
+}
+
+func (m *machine) nEmpty() int {
+	n := 0
+	for _, o := range m.live {
+		if _, isStr := o.(collection.String); !isStr && o.Empty() {
+			n++
+		}
+	}
+	return n
+}
+
+// cover is the float64 box of every stored object that has a position.
+func (m *machine) cover() *geometry.Rect {
+	var r geometry.Rect
+	n := 0
+	for _, o := range m.live {
+		if o.Empty() || nanBox(o) {
+			continue
+		}
+		if _, isStr := o.(collection.String); isStr {
+			continue
+		}
+		b := o.Rect()
+		if n == 0 {
+			r = b
+		} else {
+			r.Min.X, r.Min.Y = math.Min(r.Min.X, b.Min.X), math.Min(r.Min.Y, b.Min.Y)
+			r.Max.X, r.Max.Y = math.Max(r.Max.X, b.Max.X), math.Max(r.Max.Y, b.Max.Y)
+		}
+		n++
+	}
+	if n == 0 {
+		return nil
+	}
+	return &r
 }
 
 func (m *machine) drawTouch(t *rapid.T, id string) step {
